@@ -7,6 +7,7 @@ same target bases (string and locus), path-length column, CIGAR reversed <=> str
 
 import collections
 import os
+from vf.util import vary_name  # noqa: E402
 
 from vf import monitor as M
 from vf.cli import run_cli
@@ -101,7 +102,7 @@ def run_case(ctx, rng, index, casedir):
     size = rng.choice(["small", "small", "medium"]) if ctx.tier == "quick" else rng.choice(["small", "medium", "medium", "large"])
     g = rgfa.gen_rgfa(rng, size=size)
     gz = rng.random() < 0.25
-    gpath = g.write(os.path.join(casedir, "g.gfa" + (".gz" if gz else "")), rng=rng, shuffle=rng.random() < 0.5)
+    gpath = g.write(os.path.join(casedir, vary_name(rng, "g.gfa") + (".gz" if gz else "")), rng=rng, shuffle=rng.random() < 0.5)
     coords = rgaf.Coords(g)
     M.CTX["coords"] = coords
     nrec = rng.randint(8, 30)
@@ -111,7 +112,7 @@ def run_case(ctx, rng, index, casedir):
     for w in walks:
         classify_walk(g, w, sit)
     mode = rng.choice(["plain", "plain", "bgzf", "pysam"])
-    gaf_in = os.path.join(casedir, "in.gaf" + ("" if mode == "plain" else ".gz"))
+    gaf_in = os.path.join(casedir, vary_name(rng, "in.gaf") + ("" if mode == "plain" else ".gz"))
     ggaf.write_gaf(gaf_in, [r.line for r in recs], mode=mode, rng=rng, layout=rng.choice(["standard", "tiny"]))
     in_recs = [rgaf.Rec(r.line) for r in recs]
     gsig = stable_hash(g.signature())
